@@ -81,6 +81,17 @@ def main():
     # 4. property module
     try:
         res = mod.run(ctx)
+    except BaseException as hang:
+        if type(hang).__name__ != 'EventHang':
+            raise
+        evs = hang.args[0] if hang.args else []
+        def short(e):
+            return [x if not isinstance(x, (bytes, bytearray)) else bytes(x).hex() for x in e]
+        res = {'evaluations': 0, 'distinct': 0, 'samples': [], 'rule': '', 'mismatches': [], 'extra': {},
+               'violations': [{'what': 'a session event did not return within the CPU limit (endless loop): the last '
+                                       'event of the replay never finishes',
+                               'events': [short(e) for e in evs], 'config': repr(hang.args[1] if len(hang.args) > 1 else {}),
+                               'known': None}]}
     except Exception:
         res = {'evaluations': 0, 'distinct': 0, 'samples': [], 'rule': '', 'mismatches': [],
                'violations': [], 'extra': {}}
